@@ -461,7 +461,7 @@ class CacheMaximum(Accumulator):
     def _accumulate_other(self, other):
         self._n += other.n
         # Inputs are not necessarily sorted, so the output isn't either
-        merged = heapq.merge((self._cache, other._cache))
+        self._cache = self._cache + other._cache
         # remove the shots which are too old first
         if self.timeout is not None:
             time_arr = [el[1] for el in self._cache]
